@@ -740,6 +740,13 @@ def _shape_rules(ctx: Ctx, rs: RuleSet):
   # legacy traverse_with_path
   lt = ctx.func('fiddle._src.experimental.daglish_legacy.traverse_with_path')
   tv = ctx.p.nested_of(lt, 'traverse')
+  if tv is None:
+    # the recursive closure written as a module-level function that takes
+    # the callback as a leading parameter
+    lifted = [h for h in ctx.lifted_helpers(lt).values() if any(
+        isinstance(x, ast.Call) and unparse(x.func) == h.name
+        for x in walk_function(h.node))]
+    tv = lifted[0] if len(lifted) == 1 else None
   ok = False
   if tv is not None:
     for n in walk_function(tv.node):
@@ -750,7 +757,7 @@ def _shape_rules(ctx: Ctx, rs: RuleSet):
           za = [unparse(a) for a in gen.iter.args]
           tg = [unparse(e) for e in gen.target.elts] if isinstance(
               gen.target, ast.Tuple) else []
-          ea = n.elt.args
+          ea = n.elt.args[-len(tv.params):]  # without re-passed bound ones
           # the zipped sequences are the path elements and the flattened
           # values of the same traverser for the same structure
           pe_src = vals_src = None
